@@ -150,13 +150,14 @@ static std::vector<float> reuse_field(int k, unsigned n, unsigned nb, bool yaxis
     return f;
 }
 static void part_reuse(const std::vector<unsigned>& ns, unsigned depth) {
-    const int NF = 6;
+    const int NF = 7;   // field 6: a field of one block only on a multi-bunch y-map (what it does to the later bunches is the caller's business and not judged - what comes after it is)
     for (unsigned n : ns) for (unsigned nb = 1; nb <= 2; nb++) for (unsigned it = 1; it <= 4; it++) for (int yaxis = 0; yaxis < 2; yaxis++) {
         uint64_t total = 1; for (unsigned i = 0; i < depth; i++) total *= NF;
         for (uint64_t code = 0; code < total; code++) {
             std::vector<int> h(depth); { uint64_t c = code; for (unsigned i = 0; i < depth; i++) { h[depth - 1 - i] = c % NF; c /= NF; } }
             bool rep = false; for (unsigned i = 1; i < depth; i++) if (h[i] == h[i - 1]) rep = true;
             if (rep) continue;      // the same field twice in a row adds nothing
+            { bool shortf = false; for (int v : h) if (v == 6) shortf = true; if (shortf && !(yaxis && nb > 1)) continue; if (h[depth - 1] == 6) continue; }
             std::string hs; for (int v : h) hs += char('0' + v);
             std::string kase = mcx::Desc()("part", "reuse")("n", n)("nb", nb)("it", it)("axis", yaxis ? "y" : "x")("fields", hs).str();
             if (!R.mine(kase)) continue;
@@ -166,6 +167,7 @@ static void part_reuse(const std::vector<unsigned>& ns, unsigned depth) {
             auto in = mkps_shift(n, 12, 0, 0, even_filling(nb), dall.data()), out = mkps_shift(n, 12, 0, 0, even_filling(nb));
             KickMap km(in, out, (SourceMap::InterpolationType)it, false, yaxis ? KickMap::Axis::y : KickMap::Axis::x, nullptr);
             for (unsigned step = 0; step < depth; step++) {
+                if (h[step] == 6) { auto sf = reuse_field(1, n, 1, true); km.swapOffset(sf); km.apply(); continue; }
                 auto f = reuse_field(h[step], n, nb, yaxis); auto f2 = f;
                 km.swapOffset(f); km.apply();
                 std::vector<float> got(out->getData(), out->getData() + dall.size());
@@ -182,7 +184,7 @@ static void part_reuse(const std::vector<unsigned>& ns, unsigned depth) {
             }
         }
     }
-    R.bound_done("reuse: n x nb{1,2} x it x axis x every sequence of " + std::to_string(depth) + " displacement fields out of 6 (zero, whole, fractional, every second row zero, rows beyond the grid, half the grid) on ONE map object; after each, output == fresh map, bitwise");
+    R.bound_done("reuse: n x nb{1,2} x it x axis x every sequence of " + std::to_string(depth) + " displacement fields out of 6 (zero, whole, fractional, every second row zero, rows beyond the grid, half the grid, a one-block field on a multi-bunch map) on ONE map object; after each, output == fresh map, bitwise");
 }
 
 int main(int argc, char** argv) {
